@@ -5,6 +5,7 @@ Everything here is a user-level subclass of a public asynq base class or a
 subscription to a public event; nothing in asynq is patched.
 """
 
+import functools
 import itertools
 import threading
 import types
@@ -41,6 +42,23 @@ GLOBAL_SEQ = itertools.count()
 @asynq_dec()
 def t_asynq(rt, fr):
     return (yield from lang.exec_node(rt, fr))
+
+
+def _partial_body(tag, rt, fr):
+    return (yield from lang.exec_node(rt, fr))
+
+
+# a task function that is not a function object: functools.partial over a generator function ...
+t_partial = asynq_dec()(functools.partial(_partial_body, "bound-by-partial"))
+
+
+class _PlainCallable(object):
+    def __call__(self, rt, fr):
+        return lang.run_plain(rt, fr)
+
+
+# ... and an instance with __call__ (plain body)
+t_callable = asynq_dec()(_PlainCallable())
 
 
 @asynq_dec(pure=True)
@@ -204,6 +222,10 @@ def make_task(style, rt, fr):
         return t_proxy.asynq(rt, fr)
     if style == "explicit":
         return t_explicit.asynq(rt, fr)
+    if style == "partial":
+        return t_partial.asynq(rt, fr)
+    if style == "callable":
+        return t_callable.asynq(rt, fr)
     if style == "method":
         return host_for(fr)[0].m.asynq(rt, fr)
     if style == "classmethod":
@@ -227,6 +249,10 @@ def asyncio_entry(style, rt, fr):
         return t_proxy.asyncio(rt, fr)
     if style == "explicit":
         return t_explicit.asyncio(rt, fr)
+    if style == "partial":
+        return t_partial.asyncio(rt, fr)
+    if style == "callable":
+        return t_callable.asyncio(rt, fr)
     if style == "method":
         return host_for(fr)[0].m.asyncio(rt, fr)
     if style == "classmethod":
@@ -247,6 +273,10 @@ def sync_call(style, rt, fr, how):
         return t_proxy(rt, fr)
     if style == "explicit":
         return t_explicit(rt, fr)
+    if style == "partial":
+        return t_partial(rt, fr)
+    if style == "callable":
+        return t_callable(rt, fr)
     if style == "method":
         return host_for(fr)[0].m(rt, fr)
     if style == "classmethod":
